@@ -62,3 +62,7 @@ pub proof fn witness_oracle_not_vacuous(c: Declaration, s: Set<DeclarationFlag>)
 	assert(s.insert(DeclarationFlag::Public).contains(DeclarationFlag::Public));
 	assert(!(s.remove(DeclarationFlag::Public).contains(DeclarationFlag::Public)));
 }
+
+// trusted: the derived Clone of Declaration is the identity (not called by the pinned code; present so that a change
+// that clones a whole declaration is judged by the contracts instead of being rejected by the type checker)
+impl Clone for Declaration { #[verifier::external_body] fn clone(&self) -> (r: Self) ensures r == *self { unimplemented!() } }
